@@ -314,7 +314,7 @@ class GenericCheck(Check):
         key, path_segments = path_segments[0], path_segments[1:]
         try:
             test_value = test_value[key]
-        except KeyError:
+        except (KeyError, TypeError):
             return False
         if isinstance(test_value, list):
             for val in test_value:
@@ -337,7 +337,8 @@ class GenericCheck(Check):
             test_value = ast.literal_eval(self.kind)
             return match == str(test_value)
 
-        except ValueError:
+        except (ValueError, TypeError, SyntaxError, MemoryError,
+                RecursionError):
             pass
 
         path_segments = self.kind.split('.')
